@@ -155,6 +155,13 @@ class Contract:
         self.replay_ = (harness, inputs)
         return self
 
+    def replay_for(self, match, harness, **inputs):
+        """Replay harness for the obligations whose name contains `match`."""
+        if not hasattr(self, "replays_"):
+            self.replays_ = []
+        self.replays_.append((match, harness, inputs))
+        return self
+
     def holds(self, *locks):
         """Locks (expressions) in the ghost held-set at entry."""
         self.entry_held += locks
